@@ -90,7 +90,7 @@ def main():
     open(f"{dst}/patch.diff", "w").write(diff)
     shutil.copytree(demo, f"{dst}/demo")
     meta_out = {
-        "property": cid,
+        "property": meta.get("property", cid),
         "summary": meta.get("summary"),
         "needs_to_manifest": meta.get("needs_to_manifest"),
         "files_touched": meta.get("files_touched"),
